@@ -651,7 +651,10 @@ int process_patch(const Options& options)
             permission_result.old_permissions = filesystem::get_permissions(file_to_patch);
 
         std::vector<Line> input_lines;
-        if (File* pending_file = deferred_writer.pending_write_to(file_to_patch)) {
+        // NOTE: the file which a copy or a rename starts from is the file as it was before this run, as every
+        //       patch of one git change is made against the same original tree.
+        File* pending_file = file_to_patch == output_file ? deferred_writer.pending_write_to(file_to_patch) : nullptr;
+        if (pending_file) {
             // An earlier patch of this run has already changed this file, but its result is yet to be written out.
             File pending_content = File::create_temporary_with_content(pending_file->read_all_as_string());
             input_lines = file_as_lines(pending_content);
